@@ -30,7 +30,7 @@ ASSUMPTIONS = [
     'dropped (the implementation filters them; the statement is silent)',
 ]
 ANCHORS = ['Table.subsample']
-REQUIRED = ['generate_subsamples_tables', 'seed_generator_object', 'second_call_after_inplace_edit', 'without_replacement', 'with_replacement', 'by_id',
+REQUIRED = ['stress_by_id_calls', 'generate_subsamples_tables', 'seed_generator_object', 'second_call_after_inplace_edit', 'without_replacement', 'with_replacement', 'by_id',
             'axis_observation', 'axis_sample', 'vectors_below_n_dropped',
             'seed_reproducibility_checked', 'seed_zero_checked',
             'stat_draws', 'layout_csc_seen']
@@ -475,6 +475,7 @@ def run_case(ctx, index):
 def stress(ctx):
     from vm.checks import _stress
     _stress.stress_subsample(ctx, ctx.rng('stress'))
+    _stress.stress_subsample_by_id(ctx, ctx.rng('stress-by-id'))
 
 
 def san_indices(tier):
